@@ -20,9 +20,14 @@
   two source texts that parse and assemble with debug symbols (line counts within 64 bits), the linked debug symbols report
   for every address of A the same line and text, and for every address only in B its line shifted by lines(A) with the
   same text.
+  Session 5 (`nested_link_line_text`, Lemmas/DebugNested): the same statement for the debug symbols of ANY two files produced by
+  assembling and linking (`Txt.DOk`: the line map is the condensation of a per-line vector as long as the line count — kept
+  by `DebugSymbols::link`, `Txt.DOk.link`, and true of every assembled file, `source_tOk`), so it applies to every link of a
+  nested link, not only to freshly assembled operands.
 -/
 import Lc3V.Lemmas.C22Core
 import Lc3V.Props.C24
+import Lc3V.Lemmas.DebugNested
 set_option linter.unusedSimpArgs false
 set_option linter.unusedVariables false
 namespace Lc3V.C22
@@ -87,6 +92,7 @@ theorem linked_sources_line_text (srcA srcB : List Char) (stA stB : List Stmt) (
 
 def obligations : List Lean.Name :=
   [``linked_sources_line_text, ``assembled_line_map_shape, ``linked_line_reads_same_text, ``link_find, ``foldl_insert_above, ``find_map_shift,
-   ``nlFrom_append, ``nl_of_link, ``count_lines_link, ``slice_shift, ``slice_prefix, ``label_shift, ``label_shift_none, ``link_source, ``link_keeps_a_blocks, ``read_line_after_link, ``read_line_link]
+   ``nlFrom_append, ``nl_of_link, ``count_lines_link, ``slice_shift, ``slice_prefix, ``label_shift, ``label_shift_none, ``link_source, ``link_keeps_a_blocks, ``read_line_after_link, ``read_line_link,
+   ``dOk_shape, ``nested_link_line_text, ``Lc3V.Txt.DOk.link, ``Lc3V.source_tOk]
 
 end Lc3V.C22
